@@ -94,9 +94,11 @@ def oracle(c):
         if meta.get("job") != "std":
             continue
         toks = meta["toks"]
-        o = Oracle(g, toks)
+        o = Oracle(g, toks, cap=10 ** 12)
         want = o.ntrees()
         kl = lf.klass(res)
+        if want >= 10 ** 12:
+            continue    # counting capped: not comparable
         if want == 0:
             if kl != "err":
                 bad.append((k, f"non-sentence accepted or crashed: {res[:100]}"))
@@ -142,6 +144,21 @@ def oracle(c):
                 bad.append((k, f"forest trees differ from the derivation trees: missing {sorted(exp - set(shapes))[:2]} "
                                f"extra {sorted(set(shapes) - exp)[:2]}"))
     return bad
+
+
+def known_class(c, k, why):
+    """F25: tree loss (only) under right-nulled folding, grammar with a production ending in >= 2 nullable symbols"""
+    if k is None or c.gram is None or not why.startswith("solutions() = "):
+        return None
+    try:
+        n = int(why.split("=")[1].split(",")[0])
+        want = int(why.rsplit("=", 1)[1])
+    except Exception:
+        return None
+    two_nullable_tail = any(len(rhs) >= 2 and all(s in c.gram.nullable for s in rhs[-2:]) for _, rhs in c.gram.prods)
+    if n < want and two_nullable_tail:
+        return "F25-glr-right-nulled-fold-loses-trees"
+    return None
 
 
 def gen(rng, tier):
@@ -224,6 +241,12 @@ def forest_correspondence(rep, fcases):
     return breaks
 
 
+def known_oracle(c):
+    for (_, _, _, m) in c.inputs:
+        m["job"] = "std"
+    return oracle(c)
+
+
 def run(rep, tier, seed):
     rng = random.Random(seed)
     proofs_ok = lean_obligations(rep, PROP_MODULE)
@@ -233,6 +256,8 @@ def run(rep, tier, seed):
         rep.violation({"broken": "harness build", "log": log[-3000:]}, no_input=True)
         return
     cases = gen(rng, tier)
+    for fc in lf.replay_known(rep, "C03", known_oracle):
+        cases.insert(0, fc)
     lf.run_cases(cases, model=False)
     fcases = forest_cases(cases)
     lf.run_cases(fcases, model=False)
@@ -246,7 +271,7 @@ def check(rep, cases, fcases, proofs_ok):
                        "tree valid modulo elision and distinct, tree set = derivation tree set (<= 64 trees), by-index = by-iteration, "
                        "None beyond solutions(); second pass: the real SPPF (runtime hook) is loaded into the Lean enumeration model "
                        "and solutions/get_tree compared; distinct = (grammar, input)")
-    failures, _ = lf.evaluate(rep, cases, oracle, proofs_ok, PROP_MODULE, compare_model=False)
+    failures, _ = lf.evaluate(rep, cases, oracle, proofs_ok, PROP_MODULE, compare_model=False, known_class=known_class)
     breaks = forest_correspondence(rep, fcases)
     rep.counters["forest_corr_breaks"] = len(breaks)
     amb = sum(1 for c in cases for r in c.results if r.startswith("ok ") and int(r.split(" ")[1]) > 1)
